@@ -1,12 +1,24 @@
 """C39 - a LiveDispatcher's re-emitted stream is a valid run.
 
-Carriers: bluesky/callbacks/stream.py: LiveDispatcher.start / process_event / stop / emit.
-Abstract view: count(s) = number of events re-emitted in stream s since the last start.
+Carriers: bluesky/callbacks/stream.py: LiveDispatcher.start / event / process_event / stop / emit.
+Abstract view: a document is *re-emitted* at the moment it is handed to the LiveDispatcher's own dispatcher
+(`self.dispatcher.process(name, doc)`: from then on subscribers have seen it, whatever happens afterwards);
+count(s) = number of events re-emitted in stream s since the last start.
 Step contracts (from the statement):
   process_event(doc, stream_name=s): emits the stream's descriptor first if it is new, then exactly one event whose
       seq_num == count(s) + 1 and whose descriptor is that descriptor's uid; count'(s) = count(s)+1; other streams untouched
-  stop: the re-emitted RunStop has num_events[s] == count(s) for every stream with events; afterwards count == 0 everywhere
+  stop: the re-emitted RunStop has num_events[s] == count(s) for every stream with events - whatever the raw RunStop
+      says (a transforming subclass emits other events than the raw run has); afterwards count == 0 everywhere
   start: re-emits a RunStart with a fresh uid
+The environment of a step is arbitrary ("arbitrary runs fed through pass-through and transforming subclasses"):
+  * a subscriber of the dispatcher may raise while it handles a document (Dispatcher() does not ignore exceptions, so
+    the exception leaves emit() after earlier subscribers have received the document);
+  * a subscriber may feed a further event back into the same LiveDispatcher while it handles a document;
+  * the schema validator may reject a document (a transforming subclass produced an ill-formed one): then it is NOT
+    re-emitted.
+In every case the view must stay exact: the next event of the stream carries count+1 where count is the number of
+events really handed to the subscribers, every event references a descriptor that was handed over before it, and the
+RunStop reports exactly these counts.
 Lemma (induction over the document sequence, immediate from the step contracts): events of each stream are numbered
 1..N and num_events reports N per stream.
 The pre-state of each step is an arbitrary state satisfying the representation invariant, built from symbolic counts
@@ -17,27 +29,18 @@ from .lib import *
 PROP = "C39"
 MS = "bluesky.callbacks.stream"
 Q = f"{MS}:LiveDispatcher"
-TRUSTED = ["event_model schema validation (schema_validators[name].validate) is effect-free on the dispatcher state",
+TRUSTED = ["event_model schema validation (schema_validators[name].validate) is effect-free on the dispatcher state and on the "
+           "document: it either returns or raises (both outcomes are explored)",
+           "Dispatcher.process(name, doc) hands the document to the subscribers and has no other effect on the LiveDispatcher than "
+           "what a subscriber does: return, raise (explored for one document per step) or call process_event again (explored "
+           "once, depth 1)",
            "collections.ChainMap(a, b, ...) converted by dict() is the union with earlier maps taking precedence",
            "A-UUID: new_uid() values are fresh and pairwise distinct; A-TIME",
            "stream names and descriptor uids are used only as dictionary keys (concrete representatives 'a', 'b' stand for any distinct names)"]
-NOT_DECIDED = "schema validity of the re-emitted documents (external validators); subclasses that override event()/process_event"
+NOT_DECIDED = ("schema validity of the re-emitted documents (external validators; only 'accepts' / 'rejects' is modelled); "
+               "subclasses that override process_event / emit; more than one fault or more than one level of re-entrancy per step")
 
-
-def install(I, emitted):
-    w = I.w
-    from pyvc.stdstubs import _new_uid
-    I.call_hooks["bluesky.utils:new_uid"] = lambda I_, f, a, k: _ret(_new_uid(I_, a, k))
-
-    def chainmap(I_, a, k):
-        out = {}
-        for m in reversed(a):
-            out.update(m)
-        return out
-    w.stubs["collections.ChainMap"] = chainmap
-    w.stubs["event_model.schema_validators.validate"] = lambda I_, a, k: None
-    disp = opaque(I, "dispatcher", methods={"process": lambda I_, o, a, k: emitted.append((a[0], a[1]))})
-    return disp
+RP = "stream.live_dispatcher"
 
 
 def _ret(v):
@@ -49,22 +52,75 @@ def docname(x):
     return x.dotted.split(".")[-1] if hasattr(x, "dotted") else x
 
 
+def install(I, emitted, fault=None):
+    """assumed contracts of the environment. `emitted` receives every (name, doc) handed to the dispatcher.
+    fault: None or {'kind': 'subscriber'|'reenter'|'validator', 'on': 'descriptor'|'event', 'armed': bool, 'reenter': callable}:
+    while armed, the first document of kind `on` is rejected by the validator / makes a subscriber raise after it was
+    delivered / makes a subscriber call back into the LiveDispatcher; the fault then disarms itself."""
+    w = I.w
+    from pyvc.stdstubs import _new_uid
+    I.call_hooks["bluesky.utils:new_uid"] = lambda I_, f, a, k: _ret(_new_uid(I_, a, k))
+    for m in ("start", "descriptor", "event", "stop"):
+        I.call_hooks[f"bluesky.callbacks.core:CallbackBase.{m}"] = lambda I_, f, a, k: _ret(None)
+
+    def chainmap(I_, a, k):
+        out = {}
+        for m in reversed(a):
+            out.update(m)
+        return out
+    w.stubs["collections.ChainMap"] = chainmap
+
+    def hit(kind, n):
+        if fault and fault.get("armed") and fault["kind"] == kind and fault["on"] == n:
+            fault["armed"] = False
+            fault["hit"] = True
+            return True
+        return False
+
+    def validator(I_, o, name):
+        n = docname(name)
+
+        def validate(I2, o2, a, k):
+            if hit("validator", n):
+                raise PyRaise(I2.mkexc("Exception", "ValidationError"))
+            return None
+        return Opaque(f"validator[{n}]", {"methods": {"validate": validate}, "isinstance_default": False})
+    w.stubs[(MS, "schema_validators")] = Opaque("schema_validators", {"getitem": validator})
+
+    def process(I_, o, a, k):
+        n = docname(a[0])
+        emitted.append((a[0], a[1]))          # handed to the subscribers: the document is re-emitted
+        if hit("subscriber", n):
+            raise PyRaise(I_.mkexc("RuntimeError", "a subscriber failed"))
+        if hit("reenter", n):
+            fault["reenter"]()
+        return None
+    disp = opaque(I, "dispatcher", methods={"process": process})
+    return disp
+
+
+DID_A = frozenset((("x",), "a", ("raw1",)))
+
+
 def make_ld(I, disp, ka, kb, desc_known):
     """an arbitrary state of a LiveDispatcher after ka events in stream 'a' and kb events in stream 'b'"""
     w = I.w
     counts = {}
     descs = {}
-    did = frozenset((("x",), "a", ("raw1",)))
     if desc_known == "other":
         # stream 'a' already has events, but under a different descriptor (e.g. other data keys): the incoming event
         # needs a new descriptor while the numbering of the stream continues
         descs["a"] = {frozenset((("x", "w"), "a", ("raw1",))): {"uid": "desc-a-old", "data_keys": {"x": {}, "w": {}}}}
         counts["a"] = ka
+    elif desc_known == "other-id":
+        # same data keys and raw descriptor, but the events so far were identified by other id_args
+        descs["a"] = {frozenset((("x",), "a", ("cfg1",))): {"uid": "desc-a-old", "data_keys": {"x": {}}}}
+        counts["a"] = ka
     elif desc_known:
-        descs["a"] = {did: {"uid": "desc-a", "data_keys": {"x": {}}}}
+        descs["a"] = {DID_A: {"uid": "desc-a", "data_keys": {"x": {}}}}
         counts["a"] = ka
     else:
-        # no event has been emitted in stream 'a' with this descriptor yet
+        # no event has been emitted in stream 'a' yet
         pass
     descs_b = w.choose([True, False], "stream b has events")
     if descs_b:
@@ -86,48 +142,175 @@ def make_ld(I, disp, ka, kb, desc_known):
     return o, descs_b
 
 
-@task("process_event", PROP, functions=[f"{Q}.process_event", f"{Q}.emit"],
-      expect=[f"{Q}.process_event#ensures[exactly one event, seq_num == count(stream)+1]",
-              f"{Q}.process_event#ensures[descriptor emitted first iff new; event references it]",
-              f"{Q}.process_event#ensures[count'(stream) = count+1, other streams unchanged]"],
-      covers=["new descriptor", "known descriptor", "other stream has events"])
+def pre_descs(known, has_b):
+    """uids of the descriptors re-emitted before the step (pre-state of make_ld)"""
+    out = []
+    if known is True:
+        out.append("desc-a")
+    elif known:
+        out.append("desc-a-old")
+    if has_b:
+        out.append("desc-b")
+    return out
+
+
+def run_view(emitted, ka, kb, descs_before):
+    """the statement's clauses over a sequence of re-emitted documents that continues a run in which ka / kb events
+    were emitted in streams a / b: -> (numbering clauses, reference clauses, events per stream, stops)"""
+    counts = {"a": ka, "b": kb}
+    n_ev = {"a": 0, "b": 0}
+    known = list(descs_before)
+    numbered, refs, stops = [], [], []
+    for n, d in emitted:
+        n = docname(n)
+        if n == "descriptor":
+            refs.append(Eq(d.get("run_start"), "start-uid"))
+            known.append(d.get("uid"))
+        elif n == "event":
+            s = "a" if "x" in d["data"] else "b"
+            counts[s] = counts[s] + 1
+            n_ev[s] += 1
+            numbered.append(Eq(d.get("seq_num"), counts[s]))
+            refs.append(Or(*[Eq(d.get("descriptor"), u) for u in known]))
+        elif n == "stop":
+            stops.append(d)
+    return numbered, refs, n_ev, stops
+
+
+def stop_clause(stops, emitted_after, want):
+    """exactly one RunStop, last, with num_events[s] == want[s] for every stream name s (a stream that is not listed
+    on either side has 0 events, as in the RunEngine's own RunStop)"""
+    if len(stops) != 1 or emitted_after != 0:
+        return False
+    return And(num_events_clause(stops[0].get("num_events"), want), Eq(stops[0].get("run_start"), "start-uid"))
+
+
+def num_events_clause(ne, want):
+    if not isinstance(ne, dict):
+        return False
+    names = sorted(set(ne.keys()) | set(want.keys()), key=str)
+    return And(*[Eq(ne.get(s, 0), want.get(s, 0)) for s in names])
+
+
+def raw_stop(w, tag=""):
+    """the raw run's RunStop: any exit status; its num_events are those of the RAW run (arbitrary, any stream names)"""
+    es = w.str("exit_status" + tag)
+    w.add(Or(Eq(es, "success"), Eq(es, "abort"), Eq(es, "fail")))
+    return {"uid": "stop1" + tag, "run_start": "raw-start", "exit_status": es, "reason": "", "time": w.real("t_stop" + tag),
+            "num_events": {"a": w.int("raw_na" + tag), "b": w.int("raw_nb" + tag), "primary": w.int("raw_np" + tag)}}
+
+
+def doc_a(w, uid, tag=""):
+    return {"uid": uid, "descriptor": "raw1", "data": {"x": w.real("x" + tag)}, "timestamps": {"x": w.real("tx" + tag)},
+            "seq_num": w.int("raw_seq" + tag), "time": w.real("t" + tag)}
+
+
+def doc_b(w, uid):
+    return {"uid": uid, "descriptor": "raw2", "data": {"y": w.real("y")}, "timestamps": {"y": w.real("ty")}, "seq_num": 1, "time": w.real("t2")}
+
+
+OB_EV = f"{Q}.process_event#ensures[exactly one event, seq_num == count(stream)+1]"
+OB_DESC = f"{Q}.process_event#ensures[descriptor emitted first iff new; event references it]"
+OB_POST = f"{Q}.process_event#ensures[count'(stream) = count+1, other streams unchanged]"
+OB_POST_STOP = f"{Q}.process_event#ensures[count' is what a following stop reports as num_events]"
+
+
+@task("process_event", PROP, functions=[f"{Q}.process_event", f"{Q}.emit", f"{Q}.stop"],
+      expect=[OB_EV, OB_DESC, OB_POST, OB_POST_STOP],
+      covers=["new descriptor", "known descriptor", "other stream has events", "new descriptor by id_args"])
 def process_event(I):
     w = I.w
     emitted = []
     disp = install(I, emitted)
     ka, kb = w.int("count_a"), w.int("count_b")
-    known = w.choose([False, True, "other"], "descriptor already emitted for this stream")
+    known = w.choose([False, True, "other", "other-id"], "descriptor already emitted for this stream")
     o, has_b = make_ld(I, disp, ka, kb, known)
     if has_b:
         w.cover("other stream has events")
     w.cover("known descriptor" if known is True else "new descriptor")
-    doc = {"uid": "ev1", "descriptor": "raw1", "data": {"x": w.real("x")}, "timestamps": {"x": w.real("tx")}, "seq_num": w.int("raw_seq"), "time": w.real("t")}
-    call_method(I, o, "process_event", doc, stream_name="a")
-    rp = {"replay": "stream.live_dispatcher"}
+    doc = doc_a(w, "ev1")
+    kw = {}
+    if known == "other-id":
+        w.cover("new descriptor by id_args")
+        kw = {"id_args": ("cfg2",), "config": {"det": {"data": {}, "timestamps": {}, "data_keys": {}}}}
+    call_method(I, o, "process_event", doc, stream_name="a", **kw)
+    rp = {"replay": RP, "scenario": "steps", "known": known}
     names = [docname(n) for n, d in emitted]
     events = [d for n, d in emitted if docname(n) == "event"]
     descs = [d for n, d in emitted if docname(n) == "descriptor"]
-    w.check(f"{Q}.process_event#ensures[exactly one event, seq_num == count(stream)+1]",
-            And(len(events) == 1, Eq(events[0]["seq_num"], ka + 1) if events else False), rp)
+    w.check(OB_EV, And(len(events) == 1, Eq(events[0].get("seq_num"), ka + 1) if events else False), rp)
     if known is True:
         ok = names == ["event"] and events[0]["descriptor"] == "desc-a"
     else:
         ok = names == ["descriptor", "event"] and Eq(events[0]["descriptor"], descs[0]["uid"]) is True and descs[0]["run_start"] == "start-uid"
-    w.check(f"{Q}.process_event#ensures[descriptor emitted first iff new; event references it]", ok, rp)
+    w.check(OB_DESC, ok, rp)
     # post-state through a second step: the next event in 'a' must be numbered count+2, the next one in 'b' count_b+1
     emitted.clear()
-    call_method(I, o, "process_event", dict(doc, uid="ev2"), stream_name="a")
+    call_method(I, o, "process_event", dict(doc, uid="ev2"), stream_name="a", **kw)
     ev2 = [d for n, d in emitted if docname(n) == "event"]
     emitted.clear()
-    doc_b = {"uid": "ev3", "descriptor": "raw2", "data": {"y": w.real("y")}, "timestamps": {"y": w.real("ty")}, "seq_num": 1, "time": w.real("t2")}
-    call_method(I, o, "process_event", doc_b, stream_name="b")
+    call_method(I, o, "process_event", doc_b(w, "ev3"), stream_name="b")
     ev3 = [d for n, d in emitted if docname(n) == "event"]
-    w.check(f"{Q}.process_event#ensures[count'(stream) = count+1, other streams unchanged]",
-            And(len(ev2) == 1 and len(ev3) == 1, Eq(ev2[0]["seq_num"], ka + 2) if ev2 else False, Eq(ev3[0]["seq_num"], kb + 1) if ev3 else False), rp)
+    w.check(OB_POST, And(len(ev2) == 1 and len(ev3) == 1, Eq(ev2[0].get("seq_num"), ka + 2) if ev2 else False,
+                         Eq(ev3[0].get("seq_num"), kb + 1) if ev3 else False), rp)
+    # ... and through the RunStop that closes the run
+    emitted.clear()
+    call_method(I, o, "stop", raw_stop(w))
+    stops = [d for n, d in emitted if docname(n) == "stop"]
+    w.check(OB_POST_STOP, stop_clause(stops, len(emitted) - 1, {"a": ka + 2, "b": kb + 1}), rp)
 
 
-@task("stop", PROP, functions=[f"{Q}.stop", f"{Q}.emit"],
-      expect=[f"{Q}.stop#ensures[num_events[s] == count(s) for every stream]", f"{Q}.stop#ensures[state reset for the next run]"])
+FAULTS = [("subscriber", "event"), ("subscriber", "descriptor"), ("reenter", "event"), ("reenter", "descriptor"),
+          ("validator", "event"), ("validator", "descriptor")]
+OB_F_NUM = f"{Q}.process_event#ensures[faulty environment: the events handed to the subscribers are numbered count+1, count+2, ... in order]"
+OB_F_REF = f"{Q}.process_event#ensures[faulty environment: every event references a descriptor handed to the subscribers before it]"
+OB_F_STOP = f"{Q}.stop#ensures[faulty environment: num_events[s] == number of events handed to the subscribers in s]"
+
+
+@task("process_event.fault", PROP, functions=[f"{Q}.process_event", f"{Q}.emit", f"{Q}.stop"],
+      expect=[OB_F_NUM, OB_F_REF, OB_F_STOP],
+      covers=[f"fault hit: {k} on {n}" for k, n in FAULTS] + ["event handed over although the step raised", "nothing handed over"])
+def process_event_fault(I):
+    """one step in an environment that misbehaves on one document, then fault-free steps and the RunStop"""
+    w = I.w
+    emitted = []
+    kind, on = w.choose(FAULTS, "fault")
+    fault = {"kind": kind, "on": on, "armed": False}
+    disp = install(I, emitted, fault)
+    ka, kb = w.int("count_a"), w.int("count_b")
+    # the fault is to hit in this step: a descriptor is only emitted when it is new
+    known = w.choose([False, "other"] if on == "descriptor" else [False, True], "descriptor already emitted for this stream")
+    o, has_b = make_ld(I, disp, ka, kb, known)
+    doc = doc_a(w, "ev1")
+    fault["reenter"] = lambda: call_method(I, o, "process_event", doc_a(w, "ev-re", "_re"), stream_name="a")
+    fault["armed"] = True
+    r1 = catch(I, I.getattr(o, "process_event"), doc, stream_name="a")
+    fault["armed"] = False
+    if fault.get("hit"):
+        w.cover(f"fault hit: {kind} on {on}")
+    n1 = sum(1 for n, d in emitted if docname(n) == "event")
+    if r1[0] == "raise" and n1:
+        w.cover("event handed over although the step raised")
+    if not emitted:
+        w.cover("nothing handed over")
+    r2 = catch(I, I.getattr(o, "process_event"), dict(doc, uid="ev2"), stream_name="a")
+    r3 = catch(I, I.getattr(o, "process_event"), doc_b(w, "ev3"), stream_name="b")
+    n_before_stop = len(emitted)
+    r4 = catch(I, I.getattr(o, "stop"), raw_stop(w))
+    rp = {"replay": RP, "scenario": "fault", "kind": kind, "on": on, "known": known}
+    numbered, refs, n_ev, stops = run_view(emitted, ka, kb, pre_descs(known, has_b))
+    fine = r2[0] == "ok" and r3[0] == "ok" and r4[0] == "ok" and bool(fault.get("hit"))
+    w.check(OB_F_NUM, And(fine, n_ev["a"] >= 1, n_ev["b"] == 1, *numbered), rp)
+    w.check(OB_F_REF, And(fine, *refs), rp)
+    w.check(OB_F_STOP, And(fine, stop_clause(stops, len(emitted) - n_before_stop - 1, {"a": ka + n_ev["a"], "b": kb + n_ev["b"]})), rp)
+
+
+OB_STOP = f"{Q}.stop#ensures[num_events[s] == count(s) for every stream]"
+OB_RESET = f"{Q}.stop#ensures[state reset for the next run]"
+
+
+@task("stop", PROP, functions=[f"{Q}.stop", f"{Q}.emit", f"{Q}.start", f"{Q}.descriptor", f"{Q}.process_event"], expect=[OB_STOP, OB_RESET],
+      covers=["no event was re-emitted in this run", "two descriptors in one stream"])
 def stop(I):
     w = I.w
     emitted = []
@@ -139,41 +322,47 @@ def stop(I):
     if known and w.choose([False, True], "stream a has two descriptors"):
         o._descriptors["a"][frozenset((("x", "z"), "a", ("raw1",)))] = {"uid": "desc-a2", "data_keys": {}}
         w.add(ka >= 2)
-    I.call_hooks["bluesky.callbacks.core:CallbackBase.stop"] = lambda I_, f, a, k: _ret(None)
-    call_method(I, o, "stop", {"uid": "stop1", "run_start": "raw-start", "exit_status": "success", "time": w.real("t")})
-    rp = {"replay": "stream.live_dispatcher"}
+        w.cover("two descriptors in one stream")
+    if not known and not has_b:
+        w.cover("no event was re-emitted in this run")      # a transforming subclass that dropped / has not yet completed every event
+    # the raw RunStop reports the RAW run's events (symbolic, independent of what was re-emitted)
+    call_method(I, o, "stop", raw_stop(w))
+    rp = {"replay": RP, "scenario": "stop", "known": known, "has_b": has_b}
     stops = [d for n, d in emitted if docname(n) == "stop"]
     want = {}
     if known:
         want["a"] = ka
     if has_b:
         want["b"] = kb
-    ok = len(stops) == 1 and len(emitted) == 1
-    cond = ok
-    if ok:
-        ne = stops[0]["num_events"]
-        cond = And(set(ne.keys()) == set(want.keys()), *[Eq(ne[s], want[s]) for s in want if s in ne],
-                   stops[0]["run_start"] == "start-uid")
-    w.check(f"{Q}.stop#ensures[num_events[s] == count(s) for every stream]", cond, rp)
-    # after stop the view is zero again: a fresh run's first event is numbered 1
+    w.check(OB_STOP, stop_clause(stops, len(emitted) - 1, want), rp)
+    # the next run through the same dispatcher starts from zero: its first event is numbered 1 under a descriptor of its own,
+    # and (when nothing more is emitted) its RunStop reports exactly that one event
     emitted.clear()
-    o.attrs["_stream_start_uid"] = "start2"
-    o.attrs["raw_descriptors"] = {"raw1": {"uid": "raw1", "data_keys": {"x": {}}}}
+    call_method(I, o, "start", {"uid": "raw-start-2", "time": w.real("t_start2"), "scan_id": 2})
+    call_method(I, o, "descriptor", {"uid": "raw1", "data_keys": {"x": {}}, "name": "primary"})
     doc = {"uid": "ev1", "descriptor": "raw1", "data": {"x": w.real("x")}, "timestamps": {"x": 0}, "seq_num": 7, "time": 0}
     call_method(I, o, "process_event", doc, stream_name="a")
-    evs = [d for n, d in emitted if docname(n) == "event"]
-    w.check(f"{Q}.stop#ensures[state reset for the next run]",
-            And(len(evs) == 1, Eq(evs[0]["seq_num"], 1) if evs else False, [docname(n) for n, d in emitted] == ["descriptor", "event"]), rp)
+    call_method(I, o, "stop", raw_stop(w, "_2"))
+    names = [docname(n) for n, d in emitted]
+    ok = names == ["start", "descriptor", "event", "stop"]
+    if ok:
+        st, de, ev, sp = [d for n, d in emitted]
+        ne = sp.get("num_events")
+        ok = And(Eq(ev.get("seq_num"), 1), Eq(ev.get("descriptor"), de.get("uid")), Eq(de.get("run_start"), st.get("uid")),
+                 Eq(sp.get("run_start"), st.get("uid")), num_events_clause(ne, {"a": 1}))
+    w.check(OB_RESET, ok, rp)
 
 
-@task("start", PROP, functions=[f"{Q}.start", f"{Q}.__init__"],
-      expect=[f"{Q}.start#ensures[re-emits one RunStart with a fresh uid; first event numbered 1]"])
+OB_START = f"{Q}.start#ensures[re-emits one RunStart with a fresh uid; first event numbered 1]"
+OB_PASS = f"{Q}.event#ensures[pass-through: every raw event is re-emitted once in stream 'primary', numbered 1, 2; stop reports 2]"
+
+
+@task("start", PROP, functions=[f"{Q}.start", f"{Q}.__init__", f"{Q}.event", f"{Q}.descriptor", f"{Q}.stop"], expect=[OB_START, OB_PASS])
 def start(I):
     w = I.w
     emitted = []
     disp = install(I, emitted)
     w.stubs[("bluesky.callbacks.stream", "Dispatcher")] = native(lambda I_, a, k: disp)
-    I.call_hooks["bluesky.callbacks.core:CallbackBase.start"] = lambda I_, f, a, k: _ret(None)
     o = construct(I, Q)
     call_method(I, o, "start", {"uid": "raw-start", "time": w.real("t"), "scan_id": 1})
     starts = [d for n, d in emitted if docname(n) == "start"]
@@ -181,12 +370,27 @@ def start(I):
     cond = ok
     if ok:
         cond = And(starts[0]["original_run_uid"] == "raw-start", o._stream_start_uid is starts[0]["uid"])
+    suid = o._stream_start_uid
     emitted.clear()
     call_method(I, o, "descriptor", {"uid": "raw1", "data_keys": {"x": {}}})
-    call_method(I, o, "process_event", {"uid": "ev1", "descriptor": "raw1", "data": {"x": w.real("x")}, "timestamps": {"x": 0}, "seq_num": 5, "time": 0})
+    # the pass-through dispatcher: the base class' own event()
+    call_method(I, o, "event", {"uid": "ev1", "descriptor": "raw1", "data": {"x": w.real("x")}, "timestamps": {"x": 0}, "seq_num": 5, "time": 0})
     evs = [d for n, d in emitted if docname(n) == "event"]
-    w.check(f"{Q}.start#ensures[re-emits one RunStart with a fresh uid; first event numbered 1]",
-            And(cond, len(evs) == 1, Eq(evs[0]["seq_num"], 1) if evs else False), {"replay": "stream.live_dispatcher"})
+    rp = {"replay": RP, "scenario": "passthrough"}
+    w.check(OB_START, And(cond, len(evs) == 1, Eq(evs[0].get("seq_num"), 1) if evs else False), rp)
+    call_method(I, o, "event", {"uid": "ev2", "descriptor": "raw1", "data": {"x": w.real("x2")}, "timestamps": {"x": 0}, "seq_num": 6, "time": 0})
+    n0 = len(emitted)
+    call_method(I, o, "stop", {"uid": "stop1", "run_start": "raw-start", "exit_status": "success", "time": 0, "num_events": {"primary": 2, "baseline": 2}})
+    names = [docname(n) for n, d in emitted]
+    evs = [d for n, d in emitted if docname(n) == "event"]
+    ok = names == ["descriptor", "event", "event", "stop"]
+    if ok:
+        st = emitted[-1][1]
+        ne = st.get("num_events")
+        ok = And(Eq(evs[0].get("seq_num"), 1), Eq(evs[1].get("seq_num"), 2), Eq(evs[0].get("descriptor"), emitted[0][1].get("uid")),
+                 Eq(evs[1].get("descriptor"), emitted[0][1].get("uid")), Eq(emitted[0][1].get("run_start"), suid),
+                 num_events_clause(ne, {"primary": 2}), Eq(st.get("run_start"), suid))
+    w.check(OB_PASS, ok, rp)
 
 
 @task("process_event.twin", PROP, twin="twin:seq_num equals count")
@@ -200,3 +404,20 @@ def twin(I):
     call_method(I, o, "process_event", doc, stream_name="a")
     events = [d for n, d in emitted if docname(n) == "event"]
     w.check("twin:seq_num equals count", Eq(events[0]["seq_num"], ka))
+
+
+@task("process_event.fault.twin", PROP, twin="twin:an event that a failing subscriber received does not count")
+def twin_fault(I):
+    """must-fail: the reading 'an event whose delivery raised was not emitted' (its number may be re-used)"""
+    w = I.w
+    emitted = []
+    fault = {"kind": "subscriber", "on": "event", "armed": True}
+    disp = install(I, emitted, fault)
+    ka, kb = w.int("count_a"), w.int("count_b")
+    o, has_b = make_ld(I, disp, ka, kb, True)
+    catch(I, I.getattr(o, "process_event"), doc_a(w, "ev1"), stream_name="a")
+    fault["armed"] = False
+    call_method(I, o, "process_event", doc_a(w, "ev2", "_2"), stream_name="a")
+    events = [d for n, d in emitted if docname(n) == "event"]
+    w.check("twin:an event that a failing subscriber received does not count",
+            And(len(events) == 2, Eq(events[1]["seq_num"], ka + 1) if len(events) == 2 else False))
